@@ -370,7 +370,12 @@ func checkOnce(t *T, prop func(*T)) (err *testError) {
 		t.tb.Helper()
 	}
 	defer func() {
-		err = panicToError(recover(), 3)
+		// a cleanup function that panics decides the outcome, except that skipping
+		// in a cleanup function does not hide a failure of the test case
+		cleanupErr := panicToError(recover(), 3)
+		if cleanupErr != nil && (err == nil || err.isInvalidData() || !cleanupErr.isInvalidData()) {
+			err = cleanupErr
+		}
 		if failed, ok := t.resetFailed(); ok && (err == nil || err.isInvalidData()) {
 			// non-fatal failure was signalled by a cleanup function, or was followed by skipping the test case
 			err = &testError{data: failed, traceback: lateFailureTraceback}
@@ -378,6 +383,7 @@ func checkOnce(t *T, prop func(*T)) (err *testError) {
 	}()
 
 	defer t.cleanup()
+	defer func() { err = panicToError(recover(), 3) }() // outcome of prop itself, known before cleanup functions run
 	prop(t)
 	t.failOnError()
 
